@@ -37,3 +37,28 @@ Print Assumptions C06_flattened_chains.
 Theorem C06_subtraction_grouping_matters :
   exists a b c, v_arith Z.sub (v_arith Z.sub a b) c <> v_arith Z.sub a (v_arith Z.sub b c).
 Proof. exact sub_not_assoc. Qed.
+
+(* ---- where SQLAlchemy puts parentheses (Model/SaGroup.v) ---- *)
+From MSV Require Import Model.SaGroup Proofs.SaGroupProofs.
+
+(* EVERY expression tree of +, -, *, unary minus, comparisons, AND / OR / NOT, BETWEEN (with
+   arithmetic bounds): if the precedence table read from the installed SQLAlchemy satisfies K_sa
+   (checked by an instance theorem on every run), the printed structure reads back under the
+   standard operator levels exactly as it was printed: operand grouping is explicit wherever it
+   is needed. *)
+Theorem C06_printed_is_unambiguous :
+  forall T, K_sa T = true -> forall e, bounds_arith e = true -> forall p, pr T e = Some p -> wf p = true.
+Proof. exact printed_is_unambiguous. Qed.
+Print Assumptions C06_printed_is_unambiguous.
+
+(* ... and it has the value of the tree it was printed from, for every assignment of numbers /
+   NULL to the columns: flattened chains, flipped negations and parentheses change nothing. *)
+Theorem C06_printed_means_the_same :
+  forall T env, (forall n, no_str (env n) = true) -> forall e p, pr T e = Some p -> psem env p = sem env e.
+Proof. intros T env H e p Hp. exact (proj1 (printed_means_the_same T env H e p Hp)). Qed.
+Print Assumptions C06_printed_means_the_same.
+
+(* the guard on BETWEEN bounds is needed *)
+Theorem C06_between_bound_comparison_refuted :
+  exists T e p, K_sa T = true /\ pr T e = Some p /\ wf p = false.
+Proof. exact between_bound_comparison_refuted. Qed.
